@@ -5,3 +5,7 @@ add('C02', 'DESIGN.md 4/C02',
 add('C17', 'DESIGN.md 4/C17',
     'Inductive step decided by z3 over all valid states: from the constructor state of arbitrary ascending breakpoints (k<=4 quick, 5 thorough) and slopes, one real insert(interval, slope) with symbolic arguments in each region (between / equal / above) or one pop(i) leaves the lists sorted and paired and makes get_UoRT/HoRT/GoRT/FoRT*R*T equal the reference continuous piecewise-linear energy for every coverage and temperature; S=Cv=Cp=0, T-independence, reload invariance; plus explicit 2-3 step histories.',
     'Pre-state = constructor output for arbitrary valid lists (every mutator ends in _set_intercepts, checked by the explicit histories); floats as reals; k bounded.')
+
+add('C20', 'DESIGN.md 4/C20',
+    'For all T, P, V, n, a, b, Tc, Pc in the stated physical ranges z3 proves that every ideal-gas getter composed with its inverse is the identity, V is linear in n, the van der Waals get_T/get_P invert each other, every value numpy.roots may return for the cubic the code builds reproduces P through get_P (so the cubic coefficients are right), the selected root is the largest/smallest real one, the true molar volume is a root of that cubic, |P_vdW-P_ideal| obeys an explicit bound vanishing with density, and the critical constants round-trip (Tc, Pc, Vc=3nb, dP/dV=0 at the critical point).',
+    'numpy.roots replaced by a contract stub (any values satisfying the cubic; completeness of the root finder not claimed); floats as reals.')
